@@ -844,6 +844,17 @@ impl Session {
     pub fn verif_set_session_mode(&mut self, mode: SessionMode) {
         self.set_session_mode(mode)
     }
+
+    /// Read-only view of a session for the handshake properties:
+    /// `(reserved, local node id, decryption key, encryption key)`.
+    pub fn verif_view(&self) -> (bool, u64, [u8; 16], [u8; 16]) {
+        (
+            self.reserved,
+            self.local_nodeid,
+            *self.dec_key.access(),
+            *self.enc_key.access(),
+        )
+    }
 }
 
 impl fmt::Display for Session {
